@@ -17,10 +17,20 @@ class Oracle:
         self.prefix = []
         self.trace = []
         self.assumed = {}
+        self.positive = set()
 
     def decide(self, cond):
         key = repr(cond.t)
         if key in self.assumed: return self.assumed[key]      # a stated precondition of the code under test (e.g. `assert alpha0 > 0`)
+        # declared-positive symbols (yields, uncertainties) against a non-positive constant
+        if self.positive:
+            isv = lambda s: s.t[0] == 'var' and s.t[1] in self.positive
+            nonpos = lambda s: s.t[0] == 'const' and s.t[1] <= 0
+            k0, a0, b0 = cond.t
+            if k0 in ('lt', 'le') and nonpos(a0) and isv(b0): return True
+            if k0 in ('lt', 'le') and isv(a0) and nonpos(b0): return False
+            if k0 == 'eq' and ((isv(a0) and nonpos(b0)) or (nonpos(a0) and isv(b0))): return False
+            if k0 == 'ne' and ((isv(a0) and nonpos(b0)) or (nonpos(a0) and isv(b0))): return True
         # comparisons with an infinite constant are decided (symbolic values stand for finite reals)
         k, a, b = cond.t
         inf = lambda s, sign: s.t[0] == 'const' and s.t[1] == sign * math.inf
@@ -75,7 +85,7 @@ class Sym:
     def __ne__(a, b): return Cond(('ne', a, lit(b)))
     def __bool__(a): raise TypeError('truth value of a symbolic number')
     def __float__(a): raise TypeError('float() of a symbolic number')
-    __hash__ = None
+    __hash__ = object.__hash__      # identity: containers never fall back on the symbolic `==`
     def __repr__(a): return f'Sym{a.t!r}'
 
 
@@ -98,9 +108,10 @@ class SymMath:
     def fabs(a): return abs(lit(a))
 
 
-def paths(fn, assume=()):
+def paths(fn, assume=(), positive=()):
     """`assume`: conditions (Cond objects) taken to hold without branching.  All feasible executions of `fn()` as a decision tree: ('leaf', value) | ('ite', cond, tree_true, tree_false)"""
     ORACLE.assumed = {repr(c.t): True for c in assume}
+    ORACLE.positive = set(positive)
     results = []
     stack = [[]]
     while stack:
